@@ -333,6 +333,8 @@ pub struct RoundSpec {
     /// no harness wrapper between the server and the SQLite backend object, no gates: the requests of the round start
     /// together and the operating system schedules them (stress)
     pub raw: bool,
+    /// a slow disk (LD_PRELOAD shim): I/O call number `at` of the round takes `ms` milliseconds longer
+    pub iodelay: Option<(i64, i64)>,
     /// lock contention (LD_PRELOAD shim): the next n attempts to take the SQLite write lock are refused
     pub lockbusy: Option<i64>,
 }
@@ -415,6 +417,28 @@ pub fn run_round(spec: &RoundSpec, policy: Policy, faults: Vec<(usize, usize, De
     let mut handles: HashMap<usize, std::thread::JoinHandle<()>> = HashMap::new();
     let proxies: std::cell::RefCell<HashMap<usize, ProxyDriver>> = std::cell::RefCell::new(HashMap::new());
     let barrier = Arc::new(std::sync::Barrier::new(if spec.raw { spec.reqs.len() } else { 1 }));
+    // "shared" = the requests of the round are served by ONE server object (what the workers of the real executable share:
+    // `WebServer` clones point to one server state); whatever it keeps in process - a memo, a mutex - is shared too.
+    // "multi" = one server object (and one SqliteStorage object) per request, as separate processes on one directory.
+    let one_server = spec.instances != "multi";
+    let scfg = || taskchampion_sync_server_core::ServerConfig { snapshot_days: spec.days, snapshot_versions: spec.versions };
+    let shared_gate: Arc<GateStorage> = Arc::new(GateStorage { ctl: ctl.clone(), inner: inner.clone() });
+    let (shared_lib, shared_ws): (Option<Arc<taskchampion_sync_server_core::Server>>, Option<taskchampion_sync_server::WebServer>) = if !one_server {
+        (None, None)
+    } else if spec.raw {
+        match (taskchampion_sync_server_storage_sqlite::SqliteStorage::new(&dir), taskchampion_sync_server_storage_sqlite::SqliteStorage::new(&dir)) {
+            (Ok(a), Ok(b)) => (
+                Some(Arc::new(taskchampion_sync_server_core::Server::new(scfg(), a))),
+                Some(taskchampion_sync_server::WebServer::new(scfg(), None, b)),
+            ),
+            _ => (None, None),
+        }
+    } else {
+        (
+            Some(Arc::new(taskchampion_sync_server_core::Server::new(scfg(), Shared(shared_gate.clone())))),
+            Some(taskchampion_sync_server::WebServer::new(scfg(), None, Shared(shared_gate.clone()))),
+        )
+    };
     let start_thread = |rid: usize, handles: &mut HashMap<usize, std::thread::JoinHandle<()>>| {
         let q = spec.reqs[rid - 1].clone();
         let serve: Option<(std::sync::mpsc::Receiver<Cmd>, std::sync::mpsc::Sender<Reply>)> = if spec.follow_same && rid == 1 && !spec.follow.is_empty() {
@@ -441,18 +465,20 @@ pub fn run_round(spec: &RoundSpec, policy: Policy, faults: Vec<(usize, usize, De
         };
         ctl.mark_start(rid);
         let (raw, dir2, barrier2) = (spec.raw, dir.clone(), barrier.clone());
+        let (slib, sws) = (shared_lib.clone(), shared_ws.clone());
         let h = std::thread::Builder::new()
             .stack_size(8 << 20)
             .spawn(move || {
                 RID.with(|r| r.set(rid));
                 let gate = Arc::new(GateStorage { ctl: ctl2.clone(), inner: storage });
-                let mut d = if raw {
-                    match make_driver_raw_sqlite(&driver_kind, days, versions, &dir2) {
+                let mut d: Box<dyn Driver> = match (driver_kind.as_str(), slib, sws) {
+                    ("lib", Some(sv), _) => Box::new(LibDriver::shared(sv)),
+                    (k, _, Some(ws)) if k != "lib" => Box::new(make_http_driver_ws(&ws)),
+                    _ if raw => match make_driver_raw_sqlite(&driver_kind, days, versions, &dir2) {
                         Ok(d) => d,
                         Err(_) => make_driver(&driver_kind, days, versions, None, Shared(gate)),
-                    }
-                } else {
-                    make_driver(&driver_kind, days, versions, None, Shared(gate))
+                    },
+                    _ => make_driver(&driver_kind, days, versions, None, Shared(gate)),
                 };
                 if raw {
                     barrier2.wait();
@@ -514,6 +540,9 @@ pub fn run_round(spec: &RoundSpec, policy: Policy, faults: Vec<(usize, usize, De
         if let Some(n) = spec.lockbusy {
             crate::shimapi::lock_busy(n);
         }
+        if let Some((at, ms)) = spec.iodelay {
+            crate::shimapi::io_delay(at, ms);
+        }
     } else if spec.iofault.is_some() || spec.lockbusy.is_some() {
         anyhow::bail!("I/O fault requested but the shim is not loaded");
     }
@@ -523,6 +552,8 @@ pub fn run_round(spec: &RoundSpec, policy: Policy, faults: Vec<(usize, usize, De
     let mut decisions: Vec<(Vec<usize>, usize)> = vec![];
     let mut timeouts: HashSet<usize> = HashSet::new();
     let t_round = Instant::now();
+    let mut last_progress = Instant::now();
+    let mut stuck = false;
 
     // let `rid` pass its current gate and settle (parked again / done / blocked)
     let step = |rid: usize| {
@@ -635,11 +666,18 @@ pub fn run_round(spec: &RoundSpec, policy: Policy, faults: Vec<(usize, usize, De
                             }
                         }
                     }
-                    if !any && t_round.elapsed() > Duration::from_secs(20) {
+                    if any {
+                        last_progress = Instant::now();
+                    }
+                    // nobody is parked and nothing has moved for 12 s (a backend gives up on a lock after 5 s): the requests
+                    // that are left wait for each other - the round is over, they are recorded as never answered
+                    if !any && last_progress.elapsed() > Duration::from_secs(12) {
+                        stuck = true;
                         break;
                     }
                     continue;
                 }
+                last_progress = Instant::now();
                 let pick = if k < prefix.len() && choices.contains(&prefix[k]) {
                     prefix[k]
                 } else if matches!(policy, Policy::Random(_)) {
@@ -655,7 +693,7 @@ pub fn run_round(spec: &RoundSpec, policy: Policy, faults: Vec<(usize, usize, De
     }
     // drain: whatever is left runs freely
     ctl.free_run();
-    let deadline = Instant::now() + Duration::from_secs(15);
+    let deadline = Instant::now() + Duration::from_secs(if stuck { 1 } else { 15 });
     for rid in 1..=nreq {
         if !started.contains(&rid) {
             start_thread(rid, &mut handles);
@@ -667,6 +705,26 @@ pub fn run_round(spec: &RoundSpec, policy: Policy, faults: Vec<(usize, usize, De
         if ctl.wait_settled(rid, left) != Status::Done {
             timeouts.insert(rid);
         }
+    }
+    // a slow call may outlive the answer (the point of the exercise): observe only when it is over and the files are quiet
+    if let Some((_, ms)) = spec.iodelay {
+        let until = t_round + Duration::from_millis(ms as u64 + 1500);
+        while Instant::now() < until {
+            std::thread::sleep(Duration::from_millis(50));
+        }
+        let mut last = crate::shimapi::io_count();
+        loop {
+            std::thread::sleep(Duration::from_millis(300));
+            let now = crate::shimapi::io_count();
+            if now == last {
+                break;
+            }
+            last = now;
+        }
+    }
+    if !timeouts.is_empty() {
+        // requests that never finished may sit on the storage lock for good: the projection must not wait for them
+        seedr.probe_lock = true;
     }
     // --- observation
     let log = ctl.log();
@@ -754,7 +812,8 @@ pub fn run_round(spec: &RoundSpec, policy: Policy, faults: Vec<(usize, usize, De
         "timeouts": timeouts.iter().collect::<Vec<_>>(),
         "iocount": iocount,
         "iofault": spec.iofault.map(|f| json!({"at": f.0, "errno": f.1, "persist": f.2, "after": f.3})).unwrap_or(json!({"at": 0, "errno": 0, "persist": false, "after": false})),
-        "faulted": !faults.is_empty() || spec.iofault.is_some() || spec.lockbusy.is_some(),
+        "faulted": !faults.is_empty() || spec.iofault.is_some() || spec.lockbusy.is_some() || spec.iodelay.is_some(),
+        "iodelay": {"at": spec.iodelay.map(|d| d.0).unwrap_or(0), "ms": spec.iodelay.map(|d| d.1).unwrap_or(0)},
         "lockbusy": {"n": spec.lockbusy.unwrap_or(0), "refused": lock_seen},
         "follow": follow, "follow_same_server": same_server, "raw": spec.raw,
     });
@@ -778,6 +837,7 @@ fn spec_of(j: &Value) -> RoundSpec {
         persist: false,
         follow_same: j["follow_same"].as_bool().unwrap_or(true),
         lockbusy: None,
+        iodelay: None,
         raw: j["raw"].as_bool().unwrap_or(false) && j["backend"].as_str() == Some("sqlite"),
     }
 }
@@ -891,6 +951,29 @@ pub fn run(plan_path: &str, out_path: &str) -> anyhow::Result<i32> {
                 rounds += n as i64;
                 per_job.push(json!({"id": j["id"], "rounds": n, "gates": ngates, "iocalls": nio}));
             }
+            "slow" => {
+                // a slow disk: one I/O call of the request takes `ms` longer (first call, a middle one, the last but one).
+                // Whatever the server answers meanwhile, an answer that is not a success means that nothing changes - also later
+                let mut spec = spec;
+                let probe = run_round(&spec, Policy::Prefix(&[]), vec![], run_id, &scratch)?;
+                let nio = probe.event["iocount"].as_i64().unwrap_or(-1);
+                emit(probe, json!({"sweep": "probe"}), &mut w)?;
+                run_id += 1;
+                let ms = j["delay_ms"].as_i64().unwrap_or(6000);
+                let mut n = 1usize;
+                let mut ats: Vec<i64> = vec![1, nio / 2, nio - 1];
+                ats.retain(|a| *a >= 1 && *a <= nio);
+                ats.dedup();
+                for at in ats {
+                    spec.iodelay = Some((at, ms));
+                    let r = run_round(&spec, Policy::Prefix(&[]), vec![], run_id, &scratch)?;
+                    emit(r, json!({"sweep": "slow", "at": at, "ms": ms}), &mut w)?;
+                    run_id += 1;
+                    n += 1;
+                }
+                rounds += n as i64;
+                per_job.push(json!({"id": j["id"], "rounds": n, "iocalls": nio}));
+            }
             "lock" => {
                 // C05: the write lock is held by somebody else for a while - for k lock attempts, k around every multiple of
                 // what ONE begin of a transaction waits out before it gives up (measured first): whatever retry loop the
@@ -944,6 +1027,18 @@ pub fn run(plan_path: &str, out_path: &str) -> anyhow::Result<i32> {
                         break;
                     }
                     let r = run_round(&spec, Policy::Prefix(&prefix), faults.clone(), run_id, &scratch)?;
+                    // a round in which a request was never answered settles the matter for this pair of requests: every further
+                    // round would wait as long again
+                    let dead = r.event["timeouts"].as_array().map(|a| !a.is_empty()).unwrap_or(false);
+                    if dead {
+                        let picks: Vec<usize> = r.decisions.iter().map(|d| d.1).collect();
+                        emit(r, json!({"choices": picks, "stopped": "a request was never answered"}), &mut w)?;
+                        run_id += 1;
+                        n += 1;
+                        rounds += 1;
+                        complete = false;
+                        break;
+                    }
                     // branch on every decision point beyond the prefix
                     for (k, (choices, pick)) in r.decisions.iter().enumerate() {
                         if k < prefix.len() {
@@ -971,9 +1066,13 @@ pub fn run(plan_path: &str, out_path: &str) -> anyhow::Result<i32> {
                 for k in 0..n {
                     let r = run_round(&spec, Policy::Random(s0.wrapping_mul(6364136223846793005).wrapping_add(k.wrapping_mul(1442695040888963407).wrapping_add(1))), faults.clone(), run_id, &scratch)?;
                     let picks: Vec<usize> = r.decisions.iter().map(|d| d.1).collect();
+                    let dead = r.event["timeouts"].as_array().map(|a| !a.is_empty()).unwrap_or(false);
                     emit(r, json!({"choices": picks}), &mut w)?;
                     run_id += 1;
                     rounds += 1;
+                    if dead {
+                        break;
+                    }
                 }
                 per_job.push(json!({"id": j["id"], "rounds": n}));
             }
